@@ -105,3 +105,48 @@ Proof.
   intros A p b ss Hwf Hb Hss. rewrite (run_wire_sched_indep A p _ ss Hss).
   apply C17_simulation_strict; assumption.
 Qed.
+
+(* ------------------------------------------------------------------------- *)
+(** * The bridge in front of any bus *)
+
+(* Over a bus of virtual signs the abstract bridge is Odk::process_message. *)
+Lemma odk_process_replied p b m b' r f rd :
+  frame_read (pt_in p) = Some (Ok f, rd) -> msg_of_frame f = m -> bus_step b m = Some (b', r) ->
+  odk_process p b
+  = match odk_step_replied p (fun _ => r) with
+    | Some (res, p', fwd) => Some (res, p', b', fwd)
+    | None => None
+    end.
+Proof.
+  intros Hr Hm Hb. unfold odk_process, odk_step_replied. rewrite Hr, Hm, Hb.
+  destruct r as [rm|]; [|reflexivity].
+  destruct (frame_write (frame_of_msg rm) (pt_out p)) as [[[|e] w']|]; reflexivity.
+Qed.
+
+(* Forwarding and writing back, for any bus: a decodable line is forwarded; a frame is written back exactly when
+   the bus answered (whatever kind of message it answered to), and then it is that answer's frame. *)
+Theorem bridge_any_bus p reply f rd :
+  frame_read (pt_in p) = Some (Ok f, rd) ->
+  clean_w (w_sched (pt_out p)) ->
+  exists p',
+    odk_step_replied p reply = Some (Ok tt, p', Some (msg_of_frame f))
+    /\ pt_in p' = rd
+    /\ w_out (pt_out p')
+       = w_out (pt_out p) ++ match reply (msg_of_frame f) with
+                             | Some rm => encode_nl (frame_of_msg rm)
+                             | None => []
+                             end.
+Proof.
+  intros Hr Hc. unfold odk_step_replied. rewrite Hr.
+  destruct (reply (msg_of_frame f)) as [rm|].
+  - destruct (pt_out p) as [o s] eqn:Ep. cbn [w_sched] in Hc.
+    destruct (C15_write_all (frame_of_msg rm) o s Hc) as (w' & Hw & Ho).
+    rewrite Hw. eexists. split; [reflexivity|]. split; [reflexivity|]. cbn [pt_out w_out]. exact Ho.
+  - eexists. split; [reflexivity|]. split; [reflexivity|]. rewrite app_nil_r. reflexivity.
+Qed.
+
+(* An undecodable line: a communication error, nothing forwarded, nothing written -- for any bus. *)
+Theorem bridge_bad_line_any_bus p reply e rd :
+  frame_read (pt_in p) = Some (Err e, rd) ->
+  odk_step_replied p reply = Some (Err (OComm e), {| pt_in := rd; pt_out := pt_out p |}, None).
+Proof. intros Hr. unfold odk_step_replied. rewrite Hr. reflexivity. Qed.
